@@ -7,6 +7,7 @@ x every iteration order (site-uniform, <= bound deviations) of the effect collec
 Oracle: RefState(sexp.read(op.apply(state).serialize())) == refsem.successor(...), whole state
 (so the frame condition is included).  Attribution: DESIGN §2.4.
 """
+from .. import sexp
 from ..bridge import guard, Raised, parse_domain, operator, observe_state
 from ..core import Prog, ref_applicable, ref_successor, UNDEF, ILL, INCONS, show
 from ..core import same_state as _same_state
@@ -34,6 +35,64 @@ def cases(tier):
         p["max_states"] = 128 if tier == "quick" else 512
         p["orders"] = 1 if tier == "quick" else 2
         yield p
+    # chains over several schemas whose parameters are typed differently (one case per first action)
+    for first in ("addn", "addw", "deln", "delw", "linkn", "cutw", "markn", "clearw", "flipw"):
+        yield {"kind": "chain", "first": [first], "length": 3 if tier == "quick" else 4, "tags": ["chain"]}
+
+
+CHAIN_DOMAIN = f"""(define (domain chain)
+{vdom.REQ}
+{vdom.TYPES}
+(:predicates (p ?a - t1) (q ?a - t1 ?b - t1) (m ?a - object))
+(:action addn :parameters (?x - t2) :precondition (and) :effect (and (p ?x)))
+(:action addw :parameters (?x - t1) :precondition (and) :effect (and (p ?x)))
+(:action deln :parameters (?x - t2) :precondition (and) :effect (and (not (p ?x))))
+(:action delw :parameters (?x - t1) :precondition (and) :effect (and (not (p ?x))))
+(:action linkn :parameters (?x - t2 ?y - t2) :precondition (and) :effect (and (q ?x ?y)))
+(:action cutw :parameters (?x - t1 ?y - t1) :precondition (and) :effect (and (not (q ?x ?y))))
+(:action markn :parameters (?x - t2) :precondition (and) :effect (and (m ?x)))
+(:action clearw :parameters (?x - object) :precondition (and) :effect (and (not (m ?x))))
+(:action flipw :parameters (?x - t1) :precondition (and) :effect (and (when (p ?x) (not (p ?x))) (when (not (p ?x)) (p ?x)))))
+"""
+
+
+def check_chain(case):
+    """facts added by an action whose parameter is typed narrower (or wider) than the parameter of the action that
+    deletes them: every sequence of <= L calls of a nine-schema domain from every state over three atoms, each step's
+    successor against the reference (a fact is its name and arguments - who added it does not matter)"""
+    from itertools import product
+    from ..refsem import RefDomain, successor
+    from ..bridge import parse_domain, parse_problem, operator
+    from pddl_plus_parser.multi_agent.common import create_initial_state
+    r = CaseResult()
+    r.nontrivial = True
+    S = RefDomain.from_tree(sexp.read(CHAIN_DOMAIN))
+    objs = {"o1": "t1", "o2": "t2"}
+    D = parse_domain(CHAIN_DOMAIN)
+    calls = [(a.name, args) for a in S.actions.values() for args in S.calls(a, objs)]
+    atoms = [("p", "o2"), ("q", "o2", "o2"), ("m", "o2")]
+    for mask in range(8):
+        init = [a for i, a in enumerate(atoms) if mask >> i & 1]
+        P = parse_problem(f"(define (problem c) (:domain chain) (:objects o1 - t1 o2 - t2) (:init "
+                          f"{' '.join('(' + ' '.join(a) + ')' for a in init)}) (:goal (and)))", D)
+        for seq in product(calls, repeat=case["length"]):
+            if seq[0][0] not in case["first"]:
+                continue
+            cur, ref = create_initial_state(P), RefState(init, {})
+            for i, (name, args) in enumerate(seq):
+                want = successor(S, S.actions[name], args, ref, objs)
+                got = guard(lambda: observe_state(operator(D, name, list(args), P.objects).apply(cur)))
+                nxt = guard(lambda: operator(D, name, list(args), P.objects).apply(cur))
+                r.count("transitions")
+                if isinstance(got, Raised) or not _same_state(got, want):
+                    r.outcome("disagree")
+                    r.fail("successor", f"chain {[(n, *a) for n, a in seq[:i + 1]]} from {sorted(init)}: step {i} gave {show(got)}, "
+                           f"expected {want.to_json()} (pre-state {ref.to_json()})", want.to_json(), show(got), tags=["chain"])
+                    return r
+                cur, ref = nxt, want
+            r.seen("states", digest((mask, seq)))
+    r.outcome("agree")
+    return r
 
 
 def observe(x):
@@ -46,6 +105,8 @@ def observe(x):
 
 
 def check_case(case):
+    if case.get("kind") == "chain":
+        return check_chain(case)
     r = CaseResult()
     pg = Prog(case)
     if not pg.parsed:
